@@ -28,7 +28,7 @@ RULE = ("One case = one results object built from generated content by the modul
         "area, CDS markers, details, circular wrap); nrps = NRPSPKSDomains through generate_domains with the three "
         "hmmscan front ends replaced by generated hits (module templates cut across genes, KS subtypes as nested "
         "internal hits, motifs); hmmer = HmmerResults/TIGRFamResults through build_hits on generated HSPs, judged at "
-        "full_hmmer / cluster_hmmer / tigrfam and refilter; hmmresult = HMMResult trees of depth <= 3; tta = "
+        "full_hmmer / cluster_hmmer / tigrfam and refilter; hmmresult = HMMResult trees of depth <= 4; tta = "
         "tta.detect on records with regions and a sequence whose GC content is drawn around the threshold. "
         "Non-trivial: the results hold a nested structure (protocluster with >= 2 CDS results, a definition set "
         "with >= 2 profiles, module with >= 3 components, multi-gene module, HMMResult with internal hits, >= 2 "
@@ -434,12 +434,10 @@ def _check_rules(spec: dict) -> dict:
                           "effects_definition_order")
         # the next step starts from what this generation saved
         current = {"pre": pre_text, "post": post_text}
-    deferred_classes = ["definition_order_differs"] if deferred.first else []
     clusters = list(rule_results.cds_by_cluster.values())
     multi_def = any(len(names) > 1 for group in clusters + [rule_results.cdses_outside_clusters]
                     for cds_result in group for names in cds_result.definition_domains.values())
     nested = any(len(group) >= 2 for group in clusters)
-    classes.update(deferred_classes)
     classes.add(f"protoclusters_{min(len(clusters), 3)}")
     classes.add(f"steps_{len(spec['steps'])}")
     classes.add("circular" if spec["circular"] else "linear")
